@@ -18,9 +18,14 @@ ASSUMPTIONS = [
 ]
 
 
-def rand_frame(rng, df):
+EDGE_ADDRESSES = [0, 0, 1, 0xFFFFFF, 0x800000, 0x7FFFFF, 0x000FFF, 0xFFF000]
+
+
+def rand_frame(rng, df, addr=None):
     """-> (hex frame, announced/intended address, decoy addresses)"""
-    addr = rng.randrange(1, 1 << 24)
+    if addr is None:
+        # one address in eight is an edge of the 24-bit space (000000 and ffffff are legal values of the field)
+        addr = rng.choice(EDGE_ADDRESSES) if rng.randrange(8) == 0 else rng.randrange(0, 1 << 24)
     if df in (0, 4, 5):
         payload = bytes([(df << 3) | rng.randrange(8)]) + rng.randbytes(3)
         fr = seal(payload, addr)
